@@ -362,6 +362,7 @@ func genC02(dir, tier string, seed int64) {
 	if len(hist.Violations) > 25 {
 		hist.Violations = hist.Violations[:25]
 	}
+	hist.Distinct = hist.N
 	meta.GoOnly = append(meta.GoOnly, hist)
 	count("history_models", fmt.Sprint(len(models)))
 }
